@@ -5,7 +5,9 @@
 case kind `script`: a history of operations with the keys on (emitter / parser / debugparser = hotxlfp.Parser(debug=True)),
 flavour (function / bound / wrapped / orphan = bound methods of host objects that only the emitter refers to), latectx, rets,
 ownnames, snake (the first four names are call_cell_value, call_range_value, call_function, call_variable; on a Parser one
-formula is evaluated after every emit of the history), names, bodies, ops, fuel;
+formula is evaluated after every emit of the history), namespec (the event name of every name id as a class of spellings that
+Python treats as one dict key: 0 = False = 0.0, '', (), None, 1 = True = 1.0, tuples, bytes ... - names that are not ordinary
+non-empty strings), provider (on a Parser: a cell provider under callCellValue beside the history), names, bodies, ops, fuel;
 case kind `hostsub` (oracle only): entry i of HOSTSUB on a plain or (key debug) a debug parser - a listener subscribed with
 on / once from INSIDE the host function AUDIT while a formula is being evaluated; the log of what it hears against a fixed list"""
 import itertools
@@ -41,6 +43,27 @@ RULE = ('1500*scale (thorough 20000) seeded histories of 1..30 (thorough 1..60) 
         'the final subscriptions, two probe emits per name with the bodies switched off. Every history is compared with the '
         'model and the reference emitter unless it makes more than 3000 callback calls (then it is not judged). Non-trivial = '
         'at least one callback was called before the probes; distinct = distinct cases. '
+        'Names that are not ordinary non-empty strings (key namespec; 700*scale, thorough 8000, further seeded histories drawn after '
+        'the others with 2-4 names, plus the 4 fixed histories under 5 fixed name pairs on a bare Emitter and on a Parser = 40 cases, '
+        'plus 9 fixed histories NAMED_CORE: off(name, cb) of a callback subscribed twice beside a once-listener, a once-listener '
+        'firing, off(name), each with listeners of two other names in place and probed, under the names 0 1 2 / \'\' closed saved / '
+        '2 1 3 / mixed spellings / None callCellValue 0, and a once-listener under 0 or \'\' firing on a Parser and a debug parser '
+        'that has a cell provider): every name id of the history stands for one class of the pool NAME_POOL, no class twice in a '
+        'history - falsy names (0 = False = 0.0 = -0.0, the empty string, the empty tuple, empty bytes, the empty frozenset (None itself is NOT used as a name: an API may reserve it for `no name given`); '
+        'weight 0.38 per name), equal-but-not-identical names (1 = True = 1.0, 2 = 2.0, -1 = -1.0, 10**20 = 1e20, (1, 2) = (1.0, 2) '
+        '= (True, 2.0), (sheet, 0) = (sheet, False), two separately built strings evt; 0.20), hashable names that are no strings '
+        '(7, -7, 3, 0.5, (0,), ((),), (sheet, 1), (callFunction,), bytes n0, frozenset({1}), (None,); 0.14), strings that only look '
+        'like something else (0, False, None, a blank, callfunction, callFunction with a trailing blank, (); 0.05), the parser\'s own '
+        'four event names (0.15) and ordinary strings (0.08), at least one name of the history from the first three groups; of a '
+        'class a seeded non-empty sample of its spellings is kept and EVERY use of the name (on / once / off / emit, in callback '
+        'bodies and probes too) is written with the next spelling in rotation, as an object built for that use - so a listener '
+        'subscribed under 0 is unsubscribed under False and emitted to under 0.0. These histories run on the same Emitter / Parser / '
+        'debug parser mix, flavours, contexts and return values; on a Parser or debug parser whose namespec contains none of the '
+        'parser\'s own names, with probability 0.7 (provider) the parser has, before the history, a cell provider subscribed under '
+        'callCellValue (A1 -> 5) and evaluates A1+1 after the subscription, after every emit / off(name) / off(name, cb) of the '
+        'history (those in callback bodies too) and after the probes: the result must be 6 each time (stdout / stderr to a sink). '
+        'Thorough also runs every history of length <= 3 of that enumeration a second time under the names 0 = False = 0.0 '
+        'and the empty string. The model request and the reference emitter see the name ids only. '
         'Kind hostsub (12 cases = the 6 entries of HOSTSUB x hotxlfp.Parser() / hotxlfp.Parser(debug=True); oracle only, no model '
         'request, always non-trivial): a fresh parser with va = 1, vb = 2 and the host function AUDIT, which subscribes one logging '
         'listener to an event with on or once WHILE a formula that calls it is being evaluated and returns 1; the formulas of the '
@@ -55,7 +78,15 @@ TRUSTED = ['callbacks are modelled as scripts of emitter operations; callbacks t
            'equality (==) of callbacks is modelled by callback ids: plain functions, and bound methods of host objects '
            'fetched anew for every on/once/off (equal, not identical), and functools.wraps-decorated versions of other callbacks; '
            'flavour, late filling of the context, what the callbacks return, the event names used (n0, n1, ..., the '
-           'parser\'s own or the snake_case ones), the formulas a snake history evaluates between its operations and Emitter / Parser / Parser(debug=True) are not part of the model request: the model answer is the same',
+           'parser\'s own or the snake_case ones, or those of a namespec), the formulas a snake history evaluates between its operations and Emitter / Parser / Parser(debug=True) are not part of the model request: the model answer is the same',
+           'namespec: the model identifies event names by name ids; the harness maps every class of spellings to one id and checks '
+           '(namespec_ok, asserted over the whole pool at every run) with Python\'s own == and hash that the spellings of a class are '
+           'one dict key and that different classes are different keys - so the Lean model and the reference emitter are asked about '
+           'the history of ids, and that Python-equal names are one name is a reading (see ASSUMPTIONS), not something the model proves; '
+           'which spelling a use takes (rotation over all uses of the run, offset by the id) is fixed by the case, not seeded at run time',
+           'provider: Parser.parse of A1+1 with one callCellValue listener that answers 5 for A1 is trusted to evaluate to '
+           '{result: 6, error: None} on a plain and on a debug parser (C10\'s subject); the history\'s callbacks are subscribed under '
+           'none of the parser\'s names there, so the evaluation calls none of them',
            'flavour orphan: weakref.ref and CPython reference counting decide whether the host object of a callback is still '
            'alive when the next on/once/off is written (an object no subscription holds is gone at once, a new one is made: its '
            'hook equals no subscribed one, and none is subscribed); in the model request these are the same callback ids as in every '
@@ -84,6 +115,20 @@ ASSUMPTIONS = ['a once-listener reached first by a nested emit receives that emi
                'call_range_value, call_function, call_variable) obey the same on / once / off / emit semantics on a Parser as any '
                'other name, and the parser\'s own evaluations between the operations neither deliver to them nor disturb their '
                'subscriptions',
+               'an event name is any hashable Python object, and names are the same name exactly when Python\'s dict takes them '
+               'for the same key (equal with equal hash): 0, False, 0.0 and -0.0 are one name, so are 1, True and 1.0, or (1, 2) and '
+               '(1.0, 2); a string built twice is one name; 0 and the string 0, the empty string and the empty tuple, callFunction '
+               'and callfunction are different names. This is what the unchanged Emitter._e (a dict keyed by the name) does and the '
+               'only reading under which `the listeners of a name` is defined for such names; nothing is demanded about unhashable '
+               'names or NaN',
+               'a falsy event name (0, False, 0.0, the empty string, the empty tuple, empty bytes, the empty frozenset) is a '
+               'name like any other: on / once / off(name) / off(name, cb) / emit under them obey the statement, and in particular '
+               'an unsubscription under such a name - written by the host or done by a once-listener when it fires - leaves the '
+               'listeners of every other name in place (None itself is not used as a name by the check - an API may reserve it for `no name '
+               'given`; an off() without a name, meaning all names, is not part of the statement and not exercised)',
+               'on a Parser, listeners the host subscribed under the parser\'s own event names (a cell provider under '
+               'callCellValue) are `listeners of another name` for a history under other names: they stay in place and keep '
+               'answering the parser\'s evaluations whatever is subscribed, emitted or unsubscribed under the other names',
                'a listener subscribed from inside a host function, while an evaluation of the same parser is in progress, is a '
                'listener from then on: it hears every later emit of that name (on: all of them, in that and in later evaluations; '
                'once: the next one only), on a plain parser and on one built with debug=True alike']
@@ -91,6 +136,97 @@ EXHAUSTIVE = {'quick': False, 'thorough': False}
 
 CALL_BUDGET = 3000
 PROBE = 999
+
+OWN = ['callFunction', 'callVariable', 'callCellValue', 'callRangeValue']
+
+# ---- event names that are not ordinary non-empty strings -------------------------------------------------------------
+# A name is written as a JSON-able spelling: ['int', '0'], ['bool', 'False'], ['float', '-0.0'], ['str', 'text'],
+# ['bytes', 'text'], ['none'], ['tuple', [spelling, ...]], ['frozenset', [spelling, ...]].
+# A CLASS is a list of spellings that Python treats as one and the same dict key (equal, equal hash): one event name.
+# key `namespec` of a script case = one class per name id; every use of the name takes the next spelling of its class.
+def I(n):
+    return ['int', str(n)]
+
+
+def F(x):
+    return ['float', repr(float(x))]
+
+
+def B(x):
+    return ['bool', str(bool(x))]
+
+
+def S(t):
+    return ['str', t]
+
+
+def T(*xs):
+    return ['tuple', list(xs)]
+
+
+NAME_POOL = {
+    # falsy names: `not name` holds, `name is None` does not (except for None itself)
+    'falsy': [[I(0), B(False), F(0.0), F(-0.0)], [S('')], [T()], [['bytes', '']], [['frozenset', []]]],
+    # equal but not identical: one key for Python's dict, several objects / types
+    'equal': [[I(1), B(True), F(1.0)], [I(2), F(2.0)], [I(-1), F(-1.0)], [I(10 ** 20), F(1e20)],
+              [T(I(1), I(2)), T(F(1.0), I(2)), T(B(True), F(2.0))], [S('evt'), S('evt')], [T(S('sheet'), I(0)), T(S('sheet'), B(False))]],
+    # hashable names that are no strings
+    'nonstr': [[I(7)], [I(-7)], [I(3)], [F(0.5)], [T(I(0))], [T(T())], [T(S('sheet'), I(1))], [T(S('callFunction'))],
+               [['bytes', 'n0']], [['frozenset', [I(1)]]], [T(['none'])]],
+    # strings that only look like something else
+    'looks': [[S('0')], [S('False')], [S('None')], [S(' ')], [S('callfunction')], [S('callFunction ')], [S('()')]],
+    # the parser's own four event names and ordinary names, in the same histories
+    'own': [[S(n)] for n in OWN],
+    'plain': [[S('n0')], [S('n1')], [S('closed')], [S('saved')]],
+}
+NAME_WEIGHTS = [('falsy', 0.38), ('equal', 0.20), ('nonstr', 0.14), ('looks', 0.05), ('own', 0.15), ('plain', 0.08)]
+
+
+def name_of(sp):
+    """the Python object of a spelling - built anew at every call (equal, not identical, wherever Python allows)"""
+    t = sp[0]
+    if t == 'int':
+        return int(sp[1])
+    if t == 'bool':
+        return sp[1] == 'True'
+    if t == 'float':
+        return float(sp[1])
+    if t == 'str':
+        return ''.join(list(sp[1]))
+    if t == 'bytes':
+        return bytes(bytearray(sp[1].encode('ascii')))
+    if t == 'none':
+        return None
+    if t == 'tuple':
+        return tuple(name_of(x) for x in sp[1])
+    if t == 'frozenset':
+        return frozenset(name_of(x) for x in sp[1])
+    raise ValueError(sp)
+
+
+def namespec_ok(spec):
+    """one class = one dict key, different classes = different keys (else the name ids of the history would not be the names)"""
+    keys = []
+    for cl in spec:
+        objs = [name_of(sp) for sp in cl]
+        if not objs or any(o != objs[0] or hash(o) != hash(objs[0]) for o in objs):
+            return False
+        if any(objs[0] == k for k in keys):
+            return False
+        keys.append(objs[0])
+    return True
+
+
+def uses_own(spec):
+    return any(sp[0] == 'str' and sp[1] in OWN for cl in spec for sp in cl)
+
+
+def show_names(spec):
+    return '[' + ', '.join(' = '.join('%s %r' % (type(name_of(sp)).__name__, name_of(sp)) for sp in cl) for cl in spec) + ']'
+
+
+PROVIDER_WANT = {'result': 6, 'error': None}
+PROVIDER_MARK = ' !provider: '
 
 
 class Budget(Exception):
@@ -135,12 +271,41 @@ def run_real(c, make):
         # names that are the snake_case spellings of the Parser's methods: names like any other
         own = ['call_cell_value', 'call_range_value', 'call_function', 'call_variable']
 
+    spec = c.get('namespec')
+    uses = [0]
+
     def nm(k):
+        if spec is not None:
+            # names that are not ordinary non-empty strings: every use of name k is written with the next spelling of its class
+            # (0, False, 0.0 ... are ONE name), as an object built for this use
+            uses[0] += 1
+            return name_of(spec[k][(uses[0] + k) % len(spec[k])])
         return own[k] if own is not None and k < len(own) else 'n%d' % k
     rets = bool(c.get('rets'))
+    provider = bool(c.get('provider')) and hasattr(e, 'parse') and spec is not None and not uses_own(spec)
+    trouble = []
+
+    def sink():
+        import contextlib
+        import io
+        return contextlib.redirect_stderr(io.StringIO()), contextlib.redirect_stdout(io.StringIO())
+
+    def provide(after):
+        # the parser's own listener of callCellValue (none of the history's names) must still be in place and be the only one called
+        if provider and not trouble:
+            a, b = sink()
+            with a, b:
+                got = e.parse('A1+1')
+            if got != PROVIDER_WANT:
+                trouble.append('after %s (operation %d of the history, callback bodies included) A1+1 evaluates to %r' % (after, nops[0], got))
+    nops = [0]
+    if provider:
+        e.on('callCellValue', lambda cell, setter: setter({'A1': 5}.get(cell.label)))
+        provide('the subscription of the cell provider')
 
     def do(op):
         k = op[0]
+        nops[0] += 1
         if k in ('on', 'once'):
             sub = e.on if k == 'on' else e.once
             if late:
@@ -152,11 +317,14 @@ def run_real(c, make):
                 sub(nm(op[1]), get(op[2]), {'c': op[3]})
         elif k == 'off':
             e.off(nm(op[1]))
+            provide(fmt_op(op))
         elif k == 'offcb':
             e.off(nm(op[1]), get(op[2]))
+            provide(fmt_op(op))
         elif k == 'emit':
             e.emit(nm(op[1]), op[1], op[2])
-            if c.get('snake') and hasattr(e, 'parse'):
+            provide(fmt_op(op))
+            if c.get('snake') and spec is None and hasattr(e, 'parse'):
                 # between the operations the parser does its own work (and raises its own events, which are none of these names)
                 import contextlib
                 import io
@@ -229,7 +397,8 @@ def run_real(c, make):
     for n in range(c['names']):
         e.emit(nm(n), n, PROBE)
         e.emit(nm(n), n, PROBE)
-    return main, list(log)
+    provide('the probe emits')
+    return main, list(log), trouble
 
 
 def run_spec(c):
@@ -330,10 +499,10 @@ def impl(c):
         return run_hostsub(c)
     make = _makers()[c.get('on', 'emitter')]
     try:
-        main, probe = run_real(c, make)
+        main, probe, trouble = run_real(c, make)
     except Budget:
         return None
-    return show(main, probe)
+    return show(main, probe) + ''.join(PROVIDER_MARK + t for t in trouble)
 
 
 def agree(c, impl_ans, model_ans):
@@ -355,8 +524,16 @@ def oracle(c, impl_ans):
     except Budget:
         return None
     exp = show(main, probe)
+    names = ''
+    if c.get('namespec') is not None:
+        names = ' (event names by id: %s)' % show_names(c['namespec'])
+    if PROVIDER_MARK in impl_ans:
+        impl_ans, why = impl_ans.split(PROVIDER_MARK, 1)
+        if exp == impl_ans:
+            return ('the parser\'s own listener of callCellValue (A1 -> 5), subscribed before a history that uses none of the parser\'s event '
+                    'names, was disturbed by it: %s, not to %r%s' % (why, PROVIDER_WANT, names))
     if exp != impl_ans:
-        return 'call log differs from the stated semantics: got %s, statement gives %s' % (impl_ans[:300], exp[:300])
+        return 'call log differs from the stated semantics%s: got %s, statement gives %s' % (names, impl_ans[:300], exp[:300])
     return None
 
 
@@ -382,8 +559,45 @@ def gen_op(rng, names, ncb, emit_w=3):
     return ['emit', n, rng.randrange(5)]
 
 
-def gen_case(rng, maxlen):
-    names = rng.choice([2, 2, 3])
+def gen_namespec(rng, names):
+    """one class of the pool per name id (no class twice), a non-empty sample of its spellings in a seeded order; at least one
+    name of the history is falsy, equal-but-not-identical or no string"""
+    while True:
+        spec = []
+        cats = []
+        taken = set()
+        while len(spec) < names:
+            r = rng.random()
+            cat = NAME_WEIGHTS[-1][0]
+            for k, w in NAME_WEIGHTS:
+                if r < w:
+                    cat = k
+                    break
+                r -= w
+            i = rng.randrange(len(NAME_POOL[cat]))
+            if (cat, i) in taken:
+                continue
+            taken.add((cat, i))
+            cl = NAME_POOL[cat][i]
+            spec.append(rng.sample(cl, rng.randrange(1, len(cl) + 1)))
+            cats.append(cat)
+        if any(k in ('falsy', 'equal', 'nonstr') for k in cats):
+            return spec
+
+
+def gen_named_case(rng, maxlen):
+    """a history like any other, under event names that are not ordinary non-empty strings (key namespec)"""
+    c = gen_case(rng, maxlen, [2, 3, 3, 4])
+    c['ownnames'] = False
+    c['snake'] = False
+    c['namespec'] = gen_namespec(rng, c['names'])
+    if c['on'] != 'emitter' and not uses_own(c['namespec']):
+        c['provider'] = rng.random() < 0.7
+    return c
+
+
+def gen_case(rng, maxlen, names_of=(2, 2, 3)):
+    names = rng.choice(names_of)
     ncb = rng.choice([3, 4])
     fuel = rng.choice([0, 1, 2, 2, 3])
     bodies = []
@@ -412,16 +626,51 @@ CORE = [
 ]
 
 
+def Z(*cl):
+    return [list(x) for x in cl]
+
+
+# the fixed histories under names that are not ordinary non-empty strings (2 name ids each)
+NAMED_SPECS = [
+    Z([I(0)], [I(1)]),                                      # a host's numeric event ids, the first of them 0
+    Z([S('')], [S('closed')]),                              # the empty text
+    Z([I(0), B(False), F(0.0)], [I(1), B(True), F(1.0)]),   # one key, several types
+    Z([T()], [['bytes', '']]),                              # an empty tuple, empty bytes
+    Z([T(S('sheet'), I(1))], [S('callCellValue')]),         # a tuple beside one of the parser's own names
+]
+# the unsubscriptions of the statement with listeners of two other names in place: off(name, cb) with a duplicate of cb and a
+# once-listener, a once-listener firing, off(name); under the numeric ids 0 1 2, the empty text, mixed spellings
+NAMED_CORE = [
+    {'kind': 'script', 'on': 'emitter', 'fuel': 1, 'names': 3, 'bodies': [[], [], [], [], []],
+     'ops': [['on', 0, 0, 0], ['on', 0, 1, 0], ['once', 0, 2, 1], ['on', 1, 3, 0], ['on', 2, 4, 1], ['on', 0, 0, 1],
+             ['emit', 0, 1], ['emit', 1, 1], ['emit', 2, 1], ['offcb', 0, 0], ['emit', 0, 2], ['emit', 1, 2], ['emit', 2, 2],
+             ['off', 1], ['emit', 0, 3], ['emit', 1, 3], ['emit', 2, 3]], 'namespec': ns}
+    for ns in (Z([I(0)], [I(1)], [I(2)]), Z([S('')], [S('closed')], [S('saved')]), Z([I(2)], [I(1)], [I(3)]),
+               Z([I(0), F(0.0), B(False)], [I(1), B(True)], [T()]), Z([['bytes', '']], [S('callCellValue')], [I(0)]))
+] + [
+    # a once-listener under id 0 fires on a parser whose cell provider must survive that
+    {'kind': 'script', 'on': on, 'fuel': 1, 'names': 2, 'bodies': [[], []], 'provider': True,
+     'ops': [['once', 0, 0, 0], ['on', 1, 1, 0], ['emit', 0, 1], ['emit', 1, 2], ['off', 0], ['emit', 1, 3]], 'namespec': ns}
+    for on in ('parser', 'debugparser') for ns in (Z([I(0)], [I(1)]), Z([S('')], [T()]))
+]
+
+
 def cases(rng, ctx):
     thorough = ctx['tier'] == 'thorough'
+    assert all(namespec_ok([cl]) for k in NAME_POOL for cl in NAME_POOL[k]) and namespec_ok([cl for k in sorted(NAME_POOL) for cl in NAME_POOL[k]])
     out = [dict(c) for c in CORE] + [dict(c, flavour='bound') for c in CORE] + [dict(c, flavour='wrapped') for c in CORE] + \
         [dict(c, latectx=True) for c in CORE] + [dict(c, rets=True) for c in CORE] + [dict(c, on='parser', ownnames=True) for c in CORE] + \
         [dict(c, on='parser', snake=True) for c in CORE] + [dict(c, flavour='orphan') for c in CORE] + [dict(c, on='debugparser') for c in CORE] + [dict(c, on='debugparser', ownnames=True) for c in CORE]
     out += [{'kind': 'hostsub', 'i': i} for i in range(len(HOSTSUB))] + [{'kind': 'hostsub', 'i': i, 'debug': True} for i in range(len(HOSTSUB))]
+    out += [dict(c, namespec=ns, on=on, provider=(on != 'emitter' and not uses_own(ns)))
+            for c in CORE for ns in NAMED_SPECS for on in ('emitter', 'parser')] + [dict(c) for c in NAMED_CORE]
     n = (20000 if thorough else 1500) * ctx['scale']
     maxlen = 60 if thorough else 30
     for _ in range(n):
         out.append(gen_case(rng, maxlen))
+    # the histories under names that are not ordinary non-empty strings: drawn AFTER the others (their seeded stream is unchanged)
+    for _ in range((8000 if thorough else 700) * ctx['scale']):
+        out.append(gen_named_case(rng, maxlen))
     if thorough:
         alphabet = []
         for nm in range(2):
@@ -435,6 +684,10 @@ def cases(rng, ctx):
                     continue
                 for bs in (body_sets if L >= 2 else body_sets[:1]):
                     out.append({'kind': 'script', 'on': 'emitter', 'fuel': 2, 'names': 2, 'bodies': bs, 'ops': list(ops)})
+                    if L <= 3:
+                        # the same small histories under the falsy names 0 = False = 0.0 and ''
+                        out.append({'kind': 'script', 'on': 'emitter', 'fuel': 2, 'names': 2, 'bodies': bs, 'ops': list(ops),
+                                    'namespec': Z([I(0), B(False), F(0.0)], [S('')])})
     return out
 
 
@@ -467,4 +720,36 @@ def shrink(case, msg):
                     break
             if changed:
                 break
+        if changed or c.get('namespec') is None:
+            continue
+        # the names: ordinary ones if the failure does not need them, else one spelling per name where that is enough
+        t = dict(c)
+        del t['namespec']
+        t.pop('provider', None)
+        if fails(t):
+            c = t
+            changed = True
+            continue
+        for k, cl in enumerate(c['namespec']):
+            for sp in (cl if len(cl) > 1 else []):
+                t = dict(c)
+                t['namespec'] = [list(x) for x in c['namespec']]
+                t['namespec'][k] = [sp]
+                if fails(t):
+                    c = t
+                    changed = True
+                    break
+            if changed:
+                break
+        if changed:
+            continue
+        for k, cl in enumerate(c['namespec']):
+            if cl != [S('n%d' % k)]:
+                t = dict(c)
+                t['namespec'] = [list(x) for x in c['namespec']]
+                t['namespec'][k] = [S('n%d' % k)]
+                if namespec_ok(t['namespec']) and fails(t):
+                    c = t
+                    changed = True
+                    break
     return c, oracle(c, impl(c))
